@@ -526,6 +526,43 @@ class SLock:
         return self.holder is not None
 
 
+class SMutex:
+    """a plain mutex in the code under test that is not part of the model (AsyncResult._lock): scheduler-aware, so a
+    thread parked while holding it cannot block another thread outside the scheduler; not logged"""
+    def __init__(self, sched):
+        self.sched = sched
+        self.holder = None
+
+    def acquire(self, blocking=True, timeout=-1):
+        s = self.sched
+        th = s.cur()
+        if th is None:
+            self.holder = "outside"
+            return True
+        if s.aborting:
+            raise Abort()
+        if self.holder is not None:
+            if not blocking:
+                return False
+            s.block(th, "mutex", lambda: self.holder is None, None)
+        self.holder = th.ltid
+        return True
+
+    def release(self):
+        self.holder = None
+
+    def locked(self):
+        return self.holder is not None
+
+    def __enter__(self):
+        self.acquire()
+        return self
+
+    def __exit__(self, *a):
+        self.release()
+        return False
+
+
 class SCond:
     """`_recv_event`: a Condition whose own lock, wait-set and timeouts live in the scheduler"""
     def __init__(self, sched):
@@ -1157,9 +1194,12 @@ class Run:
         """chooser(run, options, current) -> one of options; options are 'T<tid>', 'P<seq>', 'K' (advance the clock
         to the next deadline although something is enabled; offered only if the case allows early ticks)"""
         saved_lib, saved_helpers = rpyc.lib.time, rpyc.utils.helpers.time
+        saved_lock = getattr(_async_mod, "Lock", None)
         s = self.sched
         rpyc.lib.time = s.clock
         rpyc.utils.helpers.time = s.clock
+        if saved_lock is not None:
+            _async_mod.Lock = lambda: SMutex(s)     # AsyncResult._lock (registration vs publication), where it exists
         try:
             self.build()
             n = len(self.case["clients"])
@@ -1255,6 +1295,8 @@ class Run:
                 s.teardown()
             finally:
                 rpyc.lib.time, rpyc.utils.helpers.time = saved_lib, saved_helpers
+                if saved_lock is not None:
+                    _async_mod.Lock = saved_lock
                 if self.conn is not None:
                     self.conn._closed = True
                 for b in self.bgts.values():
